@@ -1,9 +1,21 @@
 use crate::fw::*;
 pub mod c01;
+pub mod c04;
+pub mod c06;
+pub mod c10;
+pub mod c12;
+pub mod c13;
+pub mod c18;
 
 pub fn dispatch(ctx: &Ctx, findings: &Findings) -> Option<PropReport> {
     Some(match ctx.prop.as_str() {
         "C01" => c01::run(ctx, findings),
+        "C04" => c04::run(ctx, findings),
+        "C06" => c06::run(ctx, findings),
+        "C10" => c10::run(ctx, findings),
+        "C12" => c12::run(ctx, findings),
+        "C13" => c13::run(ctx, findings),
+        "C18" => c18::run(ctx, findings),
         _ => return None,
     })
 }
